@@ -688,3 +688,467 @@ class WriteMapError(Kernel):
 
 
 KERNELS.append(WriteMapError)
+
+
+
+# ------------------------------------------------------------------ map_evaluate_impl (C10 / C14 / C15)
+#
+# Abstract state after key reconciliation (map_reconcile_keys / prepare_map_evaluation_slots are trusted to preserve
+# EntryInv and PW, listed in the evidence):
+#   per slot s: entry_null[s], has_graph[s], started[s], cnst[s] (the child's cached next scheduled time), key(s) = s,
+#               pw[s] = entry->schedule_context.pulled_when
+#   heap: entries id -> (present, when, slot, pulled); ids are never reused; the code's vector-as-heap is a bag with a
+#         minimum (std::push_heap / pop_heap / front with std::greater<>: library model)
+#   EntryInv: schedule_context.storage == this, schedule_context.slot == s (set when the entry is created)
+#   PW:  pw[s] != MAX_DT  =>  the heap holds (when = pw[s], slot = s, pulled = true)      [witness wit[s]]
+
+qe = z3.Int("qe")
+
+
+class EvalHeap(Obj):
+    cls = "child_schedule_queue"
+
+    def __init__(self, k):
+        Obj.__init__(self, name="child_schedule_queue")
+        self.k = k
+
+    def g(self, ctx, nm):
+        return ctx.store[(self.k.g.oid, nm)]
+
+    def minimum(self, ctx):
+        pres, when = self.g(ctx, "h_present"), self.g(ctx, "h_when")
+        e = ctx.fresh("heap_empty", "bool")
+        m = ctx.fresh("heap_min")
+        ctx.assume(z3.Implies(e, z3.ForAll([qe], z3.Not(pres[qe]))))
+        ctx.assume(z3.Implies(z3.Not(e), z3.And(pres[m], z3.ForAll([qe], z3.Implies(pres[qe], when[m] <= when[qe])))))
+        return e, m
+
+    def m_empty(self, I, args, n):
+        return self.minimum(I.ctx)[0]
+
+    def m_front(self, I, args, n):
+        e, m = self.minimum(I.ctx)
+        I.ctx.oblige("callee-pre.front:heap-non-empty", z3.Not(e), kind="bounds")
+        return HeapEntryRef(self, m)
+
+    def m_begin(self, I, args, n):
+        return ("heap_begin", self)
+
+    def m_end(self, I, args, n):
+        return ("heap_end", self)
+
+    def m_back(self, I, args, n):
+        ctx = I.ctx
+        ctx.oblige("callee-pre.back:after-pop_heap", self.g(ctx, "h_popped") >= 0, kind="callee-pre")
+        return HeapEntryRef(self, self.g(ctx, "h_popped"))
+
+    def m_pop_back(self, I, args, n):
+        ctx = I.ctx
+        pid = self.g(ctx, "h_popped")
+        ctx.oblige("callee-pre.pop_back:after-pop_heap", pid >= 0, kind="callee-pre")
+        ctx.write(Loc((self.k.g.oid, "h_present")), z3.Store(self.g(ctx, "h_present"), pid, False))
+        ctx.write(Loc((self.k.g.oid, "h_popped")), z3.IntVal(-1))
+        return VOID
+
+
+class HeapEntryRef(Obj):
+    cls = "MapChildSchedule"
+
+    def __init__(self, h, eid):
+        Obj.__init__(self, name="schedule")
+        self.h, self.eid = h, eid
+
+    def member(self, ctx, name, node):
+        return {"when": self.h.g(ctx, "h_when")[self.eid], "slot": self.h.g(ctx, "h_slot")[self.eid],
+                "pulled": self.h.g(ctx, "h_pulled")[self.eid]}[name]
+
+
+class EvalSchedCtx(Obj):
+    cls = "MapChildScheduleContext"
+
+    def __init__(self, k, slot):
+        Obj.__init__(self, name="schedule_context")
+        self.k, self.slot = k, slot
+
+    def member(self, ctx, name, node):
+        if name == "pulled_when":
+            return ArrLoc((self.k.g.oid, "pw"), self.slot)
+        if name == "slot":
+            return self.slot
+        raise Gap("schedule context member %s" % name)
+
+
+class EvalEntry(EntryObj):
+    def member(self, ctx, name, node):
+        if name == "schedule_context":
+            return EvalSchedCtx(self.k, self.slot)
+        if name == "graph":
+            return EvalChildGraph(self.k, self.slot)
+        return EntryObj.member(self, ctx, name, node)
+
+
+class EvalChildGraph(ChildGraphValue):
+    def m_view(self, I, args, n):
+        return EvalChildView(self.k, self.slot)
+
+
+class EvalChildView(ChildView):
+    def m_evaluate(self, I, args, n):
+        ctx = I.ctx
+        k = self.k
+        # out-of-band observer pushes during the child's evaluation: the heap only grows, existing entries keep their fields
+        pres_old = ctx.store[(k.g.oid, "h_present")]
+        nid_old = ctx.store[(k.g.oid, "h_next_id")]
+        nid = ctx.fresh("h_next_id_after_child")
+        ctx.assume(nid >= nid_old)
+        news = {}
+        for nm in ("h_present", "h_when", "h_slot", "h_pulled"):
+            old = ctx.store[(k.g.oid, nm)]
+            new = ctx.fresh(nm + "_after_child", old.sort())
+            ctx.assume(z3.ForAll([qe], z3.Implies(pres_old[qe], new[qe] == old[qe])))
+            news[nm] = new
+        ctx.assume(z3.ForAll([qe], z3.Implies(news["h_present"][qe], z3.And(qe >= 0, qe < nid))))
+        for nm, new in news.items():
+            ctx.write(Loc((k.g.oid, nm)), new)
+        ctx.write(Loc((k.g.oid, "h_next_id")), nid)
+        return ChildView.m_evaluate(self, I, args, n)
+
+
+class MapEvaluateImpl(MapKernel):
+    name = "map_node.cpp:map_evaluate_impl"
+    fn_name = "map_evaluate_impl"
+    filter = "map_evaluate_impl"
+    property_ids = ("C10", "C14", "C15")
+    title = "map_evaluate_impl: only constructed started children evaluate; a captured failure is written under that child's " \
+            "key; every visited child's future deadline is in the schedule heap and the node re-arms at the heap minimum"
+    max_paths = 40000
+
+    def h_present_before(self, ctx):
+        return ctx.store[(self.g.oid, "h_present")]
+
+    def entry_ptr(self, slot):
+        return Ptr(EvalEntry(self, slot), self.entry_null[slot])
+
+    def setup(self, I):
+        ctx = I.ctx
+        self.base(I)
+        g = self.g
+        self.view_started = z3.Bool("view_started")
+        self.captures = z3.Bool("captures_errors")
+        self.has_err_out = z3.Bool("has_error_output")
+        self.schema_null = z3.Bool("schema_null")
+        self.r0 = z3.Int("resume_position_plus_one0")
+        self.nslots = z3.Int("n_evaluation_slots")
+        self.slots = z3.Array("evaluation_slots", I_, I_)
+        ctx.assume(z3.And(self.r0 >= 0, self.r0 <= self.nslots, self.nslots >= 0))
+        ctx.store[(g.oid, "pw")] = z3.Array("pulled_when0", I_, I_)
+        ctx.store[(g.oid, "wit")] = z3.Array("pw_witness0", I_, I_)
+        ctx.store[(g.oid, "h_popped")] = z3.IntVal(-1)
+        ctx.store[(g.oid, "err_calls")] = z3.IntVal(0)
+        ctx.assume(self.PW(ctx))
+        ctx.assume(self.ids_ok(ctx))
+        st = self.st
+        k = self
+        ctx.store[(st.oid, "resume_position_plus_one")] = self.r0
+        for nm in ("primed", "refresh_all_bindings", "selective_repoint_bindings"):
+            ctx.store[(st.oid, nm)] = z3.Bool(nm + "0")
+        ctx.store[(st.oid, "evaluation_slots")] = Vec(ctx, "evaluation_slots", length=self.nslots, data=self.slots)
+        for nm in ("membership_changed_keys", "repoint_modified_keys"):
+            ctx.store[(st.oid, nm)] = Wild(name=nm)
+        self.heap = EvalHeap(self)
+        ctx.store[(st.oid, "child_schedule_queue")] = self.heap
+        st.m_entry_at = lambda I_, a, n_: k.entry_ptr(I_.ctx.rv(a[0]))
+        st.m_push_pulled_child_schedule = self.push_pulled
+        cx = Obj("MapNodeContext", "context")
+        spec = Obj("MapNodeSpec", "spec")
+        child = Obj("spec.child", "child_spec")
+        ctx.store[(cx.oid, "spec")] = spec
+        ctx.store[(cx.oid, "access")] = Wild(name="access")
+        ctx.store[(spec.oid, "child")] = child
+        ctx.store[(spec.oid, "output_binding_mode")] = z3.Int("output_binding_mode")
+        ctx.store[(child.oid, "output_binding")] = Wild(name="output_binding")
+        mv = Obj("MapNodeView", "map_view")
+        mv.m_internal_context = lambda I_, a, n_: Ptr(cx)
+        mv.m_internal_storage = lambda I_, a, n_: Ptr(st)
+        view = self.view
+        view.m_started = lambda I_, a, n_: k.view_started
+        view.m_as = lambda I_, a, n_: mv
+        view.m_has_error_output = lambda I_, a, n_: k.has_err_out
+        sch = Obj("NodeTypeMetaData", "schema")
+        ctx.store[(sch.oid, "captures_errors")] = self.captures
+        view.m_schema = lambda I_, a, n_: Ptr(sch, k.schema_null)
+        view.m_graph = lambda I_, a, n_: k.G
+        view.m_node_index = lambda I_, a, n_: k.node_index
+        return None, {"": Ptr(None), "view": view, "evaluation_time": self.T}
+
+    # PW with its witness
+    def PW(self, ctx):
+        pw, wit = self.gg(ctx, "pw"), self.gg(ctx, "wit")
+        pres, when, slot, pulled = (self.gg(ctx, n) for n in ("h_present", "h_when", "h_slot", "h_pulled"))
+        return z3.ForAll([qs], z3.Implies(z3.And(z3.Not(self.entry_null[qs]), pw[qs] != MAX_DT),
+                                          z3.And(pres[wit[qs]], when[wit[qs]] == pw[qs], slot[wit[qs]] == qs, pulled[wit[qs]])))
+
+    def push_pulled(self, I, args, n):
+        """MapNodeStorage::push_pulled_child_schedule under EntryInv (contract proved by PushPulledChildSchedule)"""
+        ctx = I.ctx
+        when, sc = ctx.rv(args[0]), ctx.rv(args[1])
+        if not isinstance(sc, EvalSchedCtx):
+            raise Gap("push_pulled_child_schedule on an untracked context")
+        s = sc.slot
+        pw = self.gg(ctx, "pw")
+        if ctx.decide(pw[s] == when, "already pulled at this time"):
+            return VOID
+        nid = self.gg(ctx, "h_next_id")
+        for nm, v in (("h_present", z3.BoolVal(True)), ("h_when", when), ("h_slot", s), ("h_pulled", z3.BoolVal(True))):
+            ctx.write(Loc((self.g.oid, nm)), z3.Store(self.gg(ctx, nm), nid, v))
+        ctx.write(Loc((self.g.oid, "h_next_id")), nid + 1)
+        ctx.write(Loc((self.g.oid, "pw")), z3.Store(pw, s, when))
+        ctx.write(Loc((self.g.oid, "wit")), z3.Store(self.gg(ctx, "wit"), s, nid))
+        return VOID
+
+    # callees
+    def f_map_reconcile_keys(self, I, args, n):
+        return I.ctx.fresh("refresh_all_bindings", "bool")
+
+    def f_prepare_map_evaluation_slots(self, I, args, n):
+        return VOID
+
+    def f_map_entry_membership_changed(self, I, args, n):
+        return I.ctx.fresh("membership_changed", "bool")
+
+    def f_map_entry_repoint_modified(self, I, args, n):
+        return I.ctx.fresh("repoint_modified", "bool")
+
+    def f_bind_mapped_child_inputs(self, I, args, n):
+        return VOID
+
+    f_bind_mapped_child_output = f_bind_mapped_child_inputs
+    f_finalize_mapped_child_output = f_bind_mapped_child_inputs
+
+    def f_cast(self, I, args, n):
+        return I.ctx.rv(args[0])
+
+    def f_pop_heap(self, I, args, n):
+        ctx = I.ctx
+        e, m = self.heap.minimum(ctx)
+        ctx.oblige("callee-pre.pop_heap:non-empty", z3.Not(e), kind="callee-pre")
+        ctx.write(Loc((self.g.oid, "h_popped")), m)
+        return VOID
+
+    def f_write_map_error(self, I, args, n):
+        ctx = I.ctx
+        failed, key, t, msg = ctx.rv(args[1]), ctx.rv(args[2]), ctx.rv(args[3]), ctx.rv(args[4])
+        ts = self.gg(ctx, "threw_slot")
+        ctx.oblige("write_map_error:under-the-failing-child's-key,this-cycle,its-message,its-failed-node[C15 in a keyed map an "
+                   "error in one key's child is reported under that key only; C10 failures of one key never influence another]",
+                   z3.And(z3.BoolVal(isinstance(key, KeyOf)), (key.slot if isinstance(key, KeyOf) else z3.IntVal(-3)) == ts,
+                          t == self.T, msg == self.gg(ctx, "thrown_msg"),
+                          (getattr(failed, "of_slot", z3.IntVal(-4))) == ts), kind="callee-pre")
+        ctx.write(Loc((self.g.oid, "err_calls")), self.gg(ctx, "err_calls") + 1)
+        return VOID
+
+    def ctor_handler(self, qt, node):
+        if "greater<" in qt:
+            return lambda I, args, n: Wild(name="greater")
+        if qt.endswith("TSOutputView") or qt.endswith("NodeView") or qt.endswith("MapChildSchedule"):
+            return lambda I, args, n: (I.ctx.rv(args[0]) if args else Wild(name="empty_view"))
+        return Kernel.ctor_handler(self, qt, node)
+
+    def global_var(self, I, ref, node):
+        if ref.get("name") == "nullopt":
+            return Wild(name="nullopt")
+        return None
+
+    # ---- invariants
+    def visited_ok(self, ctx, lo, hi):
+        """every slot listed at positions [lo, hi) whose child is constructed and started has its future deadline pulled"""
+        started, cnst, pw = self.gg(ctx, "started"), self.gg(ctx, "cnst"), self.gg(ctx, "pw")
+        s = self.slots[qk]
+        return z3.ForAll([qk], z3.Implies(z3.And(qk >= lo, qk < hi, z3.Not(self.entry_null[s]), self.has_graph[s], started[s],
+                                                 cnst[s] != MAX_DT, cnst[s] > self.T), pw[s] == cnst[s]))
+
+    def start_pos(self):
+        return z3.If(self.r0 != 0, self.r0 - 1, z3.IntVal(0))
+
+    def inv_main(self, I, ctx):
+        p = self.local(I, "position")
+        yield "position-range", z3.And(p >= self.start_pos(), p <= z3.If(self.nslots > self.start_pos(), self.nslots, self.start_pos()))
+        yield "PW:a-pulled-deadline-is-in-the-heap", self.PW(ctx)
+        yield "visited-children's-future-deadlines-are-pulled[C10]", self.visited_ok(ctx, self.start_pos(), p)
+        yield "errors-written=captured-failures[C15]", self.gg(ctx, "err_calls") == self.gg(ctx, "throws")
+        yield "children-only-stopped-by-reconciliation", self.gg(ctx, "started") == self.started0
+        yield "ids-fresh", self.ids_ok(ctx)
+        yield "nothing-popped", self.gg(ctx, "h_popped") == -1
+        yield "not-rescheduled-yet", self.G.get(ctx, "calls") == 0
+        yield "cursor-untouched-while-running", ctx.store[(self.st.oid, "resume_position_plus_one")] == self.r0
+
+    def ids_ok(self, ctx):
+        return z3.And(self.gg(ctx, "h_next_id") >= 0,
+                      z3.ForAll([qe], z3.Implies(self.gg(ctx, "h_present")[qe], z3.And(qe >= 0, qe < self.gg(ctx, "h_next_id")))))
+
+    def frame_main(self, I, ctx):
+        fr = [Loc((self.g.oid, nm)) for nm in ("cnst", "evals", "throws", "threw_slot", "thrown_msg", "pw", "wit", "h_present",
+                                               "h_when", "h_slot", "h_pulled", "h_next_id", "err_calls")]
+        fr.append(Loc((self.st.oid, "resume_position_plus_one")))
+        return fr
+
+    def inv_drain(self, I, ctx):
+        yield "PW:a-pulled-deadline-is-in-the-heap", self.PW(ctx)
+        yield "visited-children's-future-deadlines-are-pulled[C10]", self.visited_ok(ctx, self.start_pos(), self.nslots)
+        yield "nothing-popped", self.gg(ctx, "h_popped") == -1
+        yield "ids-fresh", self.ids_ok(ctx)
+        yield "not-rescheduled-yet", self.G.get(ctx, "calls") == 0
+        yield "cursor-reset", ctx.store[(self.st.oid, "resume_position_plus_one")] == 0
+
+    def frame_drain(self, I, ctx):
+        return [Loc((self.g.oid, nm)) for nm in ("pw", "h_present", "h_popped")]
+
+    @property
+    def loops(self):
+        return {0: LoopSpec(self.inv_main, self.frame_main), 1: LoopSpec(self.inv_drain, self.frame_drain)}
+
+    def post(self, I, ret):
+        ctx = I.ctx
+        started, cnst = self.gg(ctx, "started"), self.gg(ctx, "cnst")
+        ctx.oblige("ensures.not-started:nothing-happens", z3.Implies(z3.Not(self.view_started), z3.And(
+            ret, self.gg(ctx, "evals") == z3.K(I_, z3.IntVal(0)), self.G.get(ctx, "calls") == 0)), kind="post-normal")
+        ctx.oblige("ensures.one-error-write-per-captured-failure[C15 exactly one error tick]",
+                   self.gg(ctx, "err_calls") == self.gg(ctx, "throws"), kind="post-normal")
+        s = self.slots[qk]
+        ctx.oblige("ensures.completed=>every-visited-child's-future-deadline-re-arms-this-node-no-later[C10 self-scheduling children: "
+                   "no wake-up of a key's child is lost]",
+                   z3.Implies(z3.And(self.view_started, ret), z3.ForAll([qk], z3.Implies(z3.And(
+                       qk >= self.start_pos(), qk < self.nslots, z3.Not(self.entry_null[s]), self.has_graph[s], started[s],
+                       cnst[s] != MAX_DT, cnst[s] > self.T),
+                       z3.And(self.G.get(ctx, "calls") == 1, self.G.get(ctx, "last_i") == self.node_index,
+                              self.G.get(ctx, "last_t") <= cnst[s], self.G.get(ctx, "last_t") > self.T)))), kind="post-normal")
+        ctx.oblige("ensures.completed=>cursor-reset;paused=>cursor-on-the-paused-child", z3.Implies(self.view_started, z3.If(
+            ret, ctx.store[(self.st.oid, "resume_position_plus_one")] == 0,
+            z3.And(ctx.store[(self.st.oid, "resume_position_plus_one")] >= 1,
+                   ctx.store[(self.st.oid, "resume_position_plus_one")] <= self.nslots))), kind="post-normal")
+
+    def post_exc(self, I, exc):
+        ctx = I.ctx
+        ctx.oblige("raises.only-a-child-failure-when-errors-are-not-captured[C15 capture => the run continues]",
+                   z3.Or(z3.And(z3.BoolVal(exc.origin == "child.evaluate"),
+                                z3.Not(z3.And(self.has_err_out, z3.Not(self.schema_null), self.captures))),
+                         z3.BoolVal(exc.origin == "GraphValue::schedule_node")), kind="post-exceptional")
+
+
+KERNELS.append(MapEvaluateImpl)
+
+
+class PushSchedCtx(Obj):
+    cls = "MapChildScheduleContext"
+
+    def __init__(self, k):
+        Obj.__init__(self, name="schedule")
+        self.k = k
+
+    def member(self, ctx, name, node):
+        if name == "storage":
+            return Ptr(self.k.this_st)
+        if name == "slot":
+            return self.k.slot
+        if name == "pulled_when":
+            return Loc((self.k.g.oid, "pw_s"))
+        raise Gap("schedule context member %s" % name)
+
+
+class PushQueue(Obj):
+    cls = "std::vector<MapChildSchedule>"
+
+    def __init__(self, k):
+        Obj.__init__(self, name="child_schedule_queue")
+        self.k = k
+
+    def m_push_back(self, I, args, n):
+        ctx = I.ctx
+        e = ctx.rv(args[0])
+        g = self.k.g
+        ctx.write(Loc((g.oid, "pushed")), ctx.store[(g.oid, "pushed")] + 1)
+        for nm in ("when", "slot", "pulled"):
+            ctx.write(Loc((g.oid, "p_" + nm)), getattr(e, nm))
+        return VOID
+
+    def m_begin(self, I, args, n):
+        return ("begin", self)
+
+    def m_end(self, I, args, n):
+        return ("end", self)
+
+
+class SchedVal(Obj):
+    cls = "MapChildSchedule"
+
+    def __init__(self, when, slot, pulled):
+        Obj.__init__(self, name="schedule_value")
+        self.when, self.slot, self.pulled = when, slot, pulled
+
+
+class PushPulledChildSchedule(Kernel):
+    tu = TU
+    name = "map_node.cpp:MapNodeStorage::push_pulled_child_schedule"
+    fn_name = "push_pulled_child_schedule"
+    filter = "MapNodeStorage::push_pulled_child_schedule"
+    property_ids = ("C10",)
+    inline = ("push_child_schedule",)
+    extra_dumps = ((TU, "MapNodeStorage::push_child_schedule"),)
+    title = "push_pulled_child_schedule: a new pulled deadline of an entry of this map enters the heap and is remembered; a " \
+            "repeated one is coalesced"
+    scope = {"lo": 0, "hi": 3}
+
+    def locate(self, dumps):
+        fn = Kernel.locate(self, dumps)
+        self.index(dumps[(TU, "MapNodeStorage::push_child_schedule")])
+        return fn
+
+    def setup(self, I):
+        ctx = I.ctx
+        th = Obj("MapNodeStorage", "this_storage")
+        self.this_st = th
+        g = Obj("ghost", "pp")
+        self.g = g
+        self.when, self.slot, self.pw0 = z3.Int("when"), z3.Int("slot"), z3.Int("pulled_when0")
+        self.ctx_is_ours = z3.BoolVal(True)     # EntryInv (requires): the context belongs to an entry of this storage
+        ctx.store[(g.oid, "pw_s")] = self.pw0
+        ctx.store[(g.oid, "pushed")] = z3.IntVal(0)
+        for nm in ("when", "slot"):
+            ctx.store[(g.oid, "p_" + nm)] = z3.IntVal(-9)
+        ctx.store[(g.oid, "p_pulled")] = z3.BoolVal(False)
+        ctx.store[(g.oid, "heapified")] = z3.IntVal(0)
+        ctx.store[(th.oid, "child_schedule_queue")] = PushQueue(self)
+        return th, {"when": self.when, "schedule": PushSchedCtx(self)}
+
+    def function_handler(self, name, node, callee_node):
+        if name == "push_heap":
+            def ph(I, a, n):
+                I.ctx.write(Loc((self.g.oid, "heapified")), I.ctx.store[(self.g.oid, "heapified")] + 1)
+                return VOID
+            return ph
+        return Kernel.function_handler(self, name, node, callee_node)
+
+    def ctor_handler(self, qt, node):
+        if qt.endswith("MapChildSchedule"):
+            def mk(I, args, n):
+                a = [I.ctx.rv(x) for x in args]
+                if len(a) == 1 and isinstance(a[0], SchedVal):
+                    return a[0]
+                return SchedVal(a[0], a[1], a[2])
+            return mk
+        if "greater<" in qt:
+            return lambda I, args, n: Wild(name="greater")
+        return Kernel.ctor_handler(self, qt, node)
+
+    def post(self, I, ret):
+        ctx = I.ctx
+        g = lambda nm: ctx.store[(self.g.oid, nm)]
+        new = z3.And(self.ctx_is_ours, self.pw0 != self.when)
+        ctx.oblige("ensures.new-deadline-of-our-entry=>one-heap-entry(when,slot,pulled)-and-remembered[C10 PW established]",
+                   z3.Implies(new, z3.And(g("pushed") == 1, g("heapified") == 1, g("p_when") == self.when, g("p_slot") == self.slot,
+                                          g("p_pulled"), g("pw_s") == self.when)), kind="post-normal")
+        ctx.oblige("ensures.repeated-or-foreign=>nothing-changes", z3.Implies(z3.Not(new), z3.And(
+            g("pushed") == 0, g("pw_s") == self.pw0)), kind="post-normal")
+
+
+KERNELS.append(PushPulledChildSchedule)
